@@ -457,6 +457,21 @@ theorem splitBatches_flatten (c : Cache) : ∀ (ws cur : List Hash) (sz : Nat),
     · simp [splitBatches_flatten c rest [] 0]
     · simp [splitBatches_flatten c rest (h :: cur)]
 
+/-- the loop written against the batch object issues exactly the batches `splitBatches` describes -/
+theorem commitLoop_eq (c : Cache) : ∀ (ws : List Hash) (b : BatchSt) (acc : List (List Hash)),
+    commitLoop c ws b acc = acc ++ splitBatches c ws b.items.reverse b.size
+  | [], b, acc => by simp [commitLoop, splitBatches]
+  | h :: rest, b, acc => by
+    unfold commitLoop splitBatches
+    simp only [BatchSt.put, BatchSt.valueSize, BatchSt.reset]
+    by_cases hf : flushNow (b.size + sizeOf c h) = true
+    · simp only [hf, if_true]
+      rw [commitLoop_eq c rest ⟨[], 0⟩ (acc ++ [b.items ++ [h]])]
+      simp
+    · simp only [hf, if_false]
+      rw [commitLoop_eq c rest ⟨b.items ++ [h], b.size + sizeOf c h⟩ acc]
+      simp
+
 theorem applyBatches_eq (c : Cache) (d : Disk) (bs : List (List Hash)) :
     applyBatches c d bs = applyWrites c d bs.flatten := by
   unfold applyBatches applyWrites
